@@ -163,6 +163,18 @@ def r14d(ctx):
     ctx.check(rule, fn, ok, "the removed object is the bare base", "removed object not reduced to its base", key="bare base")
     ra = [n for n in walk_fn(fn) if isinstance(n, ast.Raise) and ("exponent < 1", True) in conditions(n)]
     ctx.check(rule, fn, len(ra) == 1, "exponents < 1 refused", "negative exponents no longer refused", key="neg exponent")
+    # the non-recursive exit is only correct if nothing of the tensor is left in the remaining term
+    single = [r for r in common.returns_of(fn) if U(r.value) == "{tuple(t_block): remaining_term}"]
+    ctx.floor(rule, "non-recursive return of process_term", len(single), 1)
+    for r in single:
+        conds = conditions(r)
+        one_obj = ("len(tensors) == 1", True) in conds
+        no_power = any(pol and t in ("exponent == 1", "1 == exponent") for t, pol in conds) or \
+            any((not pol) and t in ("exponent > 1", "exponent >= 2") for t, pol in conds)
+        ctx.check(rule, r, one_obj and no_power, "no recursion only for a single occurrence with exponent 1",
+                  "process_term returns without recursion whenever the tensor appears as one object, although base**(exponent-1) "
+                  "was multiplied back into the remaining term: a tensor with exponent > 1 is removed only once and stays in "
+                  "the block expression", key="single occurrence")
     back = [n for n in walk_fn(fn) if isinstance(n, ast.For) and U(n.iter) == "tensors[1:]"]
     ok = len(back) == 1 and U(back[0].body[0]) == f"remaining_term *= {U(back[0].target)}"
     ctx.check(rule, fn, ok, "further occurrences multiplied back", "other occurrences are not multiplied back", key="other occurrences")
